@@ -792,6 +792,11 @@ def step (st : State) (toks : List String) : IO (State × List String) := do
       match unframe t minV with
       | .ok (plain, c) => return (st, [s!"ok compressed={c} size={plain.size} hex={hexOfBytes plain}"])
       | .error e => return (st, [s!"error {e}"])
+  | ["silfversion2", req, u, h, c, k, p, sp] =>
+    -- with the pass-constraint adjustment of DetermineTableVersion: u = user specified, h = has pass constraints
+    match (if req == "default" then some Gen.defaultSilfVersion else req.toNat?), sp.toNat? with
+    | some r, some s' => return (st, [s!"{Ver.calcSilfVersion (Ver.afterPassConstraints r (u == "1") (h == "1")) (c == "1") (k == "1") (p == "1") s'}"])
+    | _, _ => return (st, ["bad-op"])
   | ["silfversion", req, c, k, p, sp] =>
     match (if req == "default" then some Gen.defaultSilfVersion else req.toNat?), sp.toNat? with
     | some r, some s' => return (st, [s!"{Ver.calcSilfVersion r (c == "1") (k == "1") (p == "1") s'}"])
